@@ -1520,7 +1520,8 @@ func (e *Enc) cutSites(fn *ssa.Function, kind, pattern string) []ssa.Instruction
 					sites = append(sites, in)
 				}
 			case "return":
-				if _, ok := in.(*ssa.Return); ok {
+				// only return statements of the source (the synthetic return of a recover block has no position)
+				if _, ok := in.(*ssa.Return); ok && in.Pos().IsValid() {
 					sites = append(sites, in)
 				}
 			case "store":
